@@ -150,9 +150,13 @@ func TestC23(t *testing.T) {
 		s2s = append(s2s, s2{"1msg-2reopen", 1, 2, 0, 0, 0}, s2{"2msg-2reopen", 2, 2, 0, 0, 0}, s2{"2msg-1reopen-1fail", 2, 1, 1, 0, 0},
 			s2{"2msg-2fail-2reset", 2, 0, 2, 2, 0}, s2{"2msg-1reopen-1detach-1fail-reset", 2, 1, 1, 1, 1})
 	}
+	// the client-only harness is small: one more delay than the end-to-end one
+	// (a write caught between two of the client's critical sections while the
+	// relay's re-open is processed needs two)
+	s2bound := bound + 1
 	mc.RunScenarios(t, agg, len(s2s), func(i int) *vsync.Config {
 		sc := s2s[i]
-		return &vsync.Config{Name: "client-s2/" + sc.name, Bound: bound, Delay: true, Deadline: run.Deadline(), MaxStep: 20000, Horizon: 10 * time.Minute,
+		return &vsync.Config{Name: "client-s2/" + sc.name, Bound: s2bound, Delay: true, Deadline: run.Deadline(), MaxStep: 20000, Horizon: 10 * time.Minute,
 			Body: s2body(sc.nmsg, sc.reopens, sc.fails, sc.resets, sc.detaches),
 			Check: func(x *vsync.Exec) string {
 				if x.HorizonHit {
@@ -166,6 +170,7 @@ func TestC23(t *testing.T) {
 	}, sigh.ClassKeys)
 	agg.Finish(true)
 	run.Cov["delay_bound"] = bound
+	run.Cov["delay_bound_client_only_harness"] = s2bound
 	run.Assumptions = append(run.Assumptions,
 		"real relay server and two real signaling clients over instrumented in-memory streams; constant 1 s back-off; virtual time",
 		"liveness reduced to safety: in the stable suffix every enabled goroutine is run to exhaustion and virtual time advances 5 minutes; progress is violated iff the system is then quiescent with a Send/Recv still pending (fairness is built in, nothing spins)")
